@@ -139,7 +139,7 @@ class ColumnBlueprint(Blueprint):
         if isinstance(self.default, ExpressionBlueprint):
             self.default = self.default.build()
         if self.parser:
-            if '.' in self.type:
+            if self.type.count('.') == 1:
                 schema, name = self.type.split('.')
             else:
                 schema, name = 'public', self.type
